@@ -65,8 +65,22 @@ def type_branches(fn: ast.AST, var_names=None) -> Dict[str, List[ast.stmt]]:
     """type name -> statements executed when the dispatch value equals it (If/elif chains on `x == 'X'` / `x in [...]`
     where the constants are container class names)."""
     out: Dict[str, List[ast.stmt]] = {}
+    # boolean locals that name a type test: `is_multiplex = hypergraph_type == "MultiplexHypergraph"` (assigned once)
+    counts: Dict[str, int] = {}
+    vals: Dict[str, ast.AST] = {}
+    for n in ast.walk(fn):
+        if isinstance(n, ast.Name) and isinstance(n.ctx, ast.Store):
+            counts[n.id] = counts.get(n.id, 0) + 1
+        if isinstance(n, ast.Assign) and len(n.targets) == 1 and isinstance(n.targets[0], ast.Name) and isinstance(n.value, (ast.Compare, ast.Call, ast.BoolOp)):
+            vals[n.targets[0].id] = n.value
+    aliases = {k: v_ for k, v_ in vals.items() if counts.get(k) == 1}
 
-    def names_of(test) -> Optional[Set[str]]:
+    def names_of(test, depth=0) -> Optional[Set[str]]:
+        if isinstance(test, ast.Name) and test.id in aliases and depth < 3:
+            return names_of(aliases[test.id], depth + 1)
+        if isinstance(test, ast.BoolOp) and isinstance(test.op, ast.Or) and depth < 3:
+            parts = [names_of(x, depth + 1) for x in test.values]
+            return set().union(*parts) if all(p_ is not None for p_ in parts) else None
         if isinstance(test, ast.Compare) and len(test.ops) == 1 and isinstance(test.ops[0], ast.Eq) and isinstance(test.left, ast.Constant) and isinstance(test.comparators[0], (ast.Name, ast.Subscript, ast.Attribute)):
             test = ast.Compare(left=test.comparators[0], ops=test.ops, comparators=[test.left])  # "X" == t
         if isinstance(test, ast.Compare) and len(test.ops) == 1 and isinstance(test.left, (ast.Name, ast.Subscript, ast.Attribute)):
@@ -404,7 +418,8 @@ def check_load_args(ctx, res: Result):
         calls = [n for st in stmts for n in ast.walk(st) if isinstance(n, ast.Call) and isinstance(n.func, ast.Attribute) and n.func.attr == "add_edge"]
         if calls:
             res.ok("S-LOADARGS", load.short, f"{t}: H.add_edge(...)", "exists", first)
-        elif helpers or any(isinstance(n, ast.Call) and isinstance(n.func, ast.Attribute) and n.func.attr == "add_edges" for st in stmts for n in ast.walk(st)):
+        elif helpers or any(isinstance(n, ast.Call) and isinstance(n.func, ast.Attribute) and n.func.attr == "add_edges" for st in stmts for n in ast.walk(st)) or any(isinstance(n, ast.Call) and isinstance(n.func, ast.Attribute) and n.func.attr in ("add_edge", "add_edges") for f_ in ld.fis for n in ast.walk(f_.node)):
+            # hyperedges are inserted somewhere in the reader, in code that is not attributed to this type's branch
             res.unknown("S-LOADARGS", load.short, f"{t}: H.add_edge(...)", "exists", f"no add_edge call recognised in the json branch for {t}", first)
         else:
             res.violation("S-LOADARGS", load.short, f"{t}: H.add_edge(...)", "exists", f"the json branch for {t} never inserts the hyperedges", first)
@@ -434,10 +449,32 @@ def check_load_args(ctx, res: Result):
             missing = need - set(bound)
             if not opaque:
                 res.check(not missing, "S-LOADARGS", load.short, f"{t}: {norm(c)}", "complete", f"add_edge is called without {sorted(missing)}", loc(cf, c))
+        # the container is constructed with the weightedness recorded in the header (an object without hyperedges has no
+        # edge record to infer it from)
+        ctors = [n for st in stmts for n in ast.walk(st) if isinstance(n, ast.Call) and isinstance(n.func, ast.Name) and n.func.id == t]
+        for c in ctors:
+            cf = owner.get(id(c), load)
+            wk = next((kw.value for kw in c.keywords if kw.arg == "weighted"), None)
+            if wk is None:
+                continue
+            cv = ctx.view(cf)
+            expr = cv.inline(wk)
+            if isinstance(expr, ast.Name):
+                # several definitions in the function (one per type branch): the one of this branch, else all of them
+                cands = [defs[expr.id]] if expr.id in defs else [n.value for n in ast.walk(cf.node) if isinstance(n, ast.Assign) and any(isinstance(t_, ast.Name) and t_.id == expr.id for t_ in n.targets)]
+                if len({norm(x) for x in cands}) == 1:
+                    expr = cands[0]
+            consts = {x.value for x in ast.walk(expr) if isinstance(x, ast.Constant) and isinstance(x.value, str)}
+            if "weighted" in consts or "_weighted" in consts:
+                res.ok("S-LOADARGS", load.short, f"{t}: {norm(c)[:100]}", "weighted-from-header", loc(cf, c))
+            elif "weight" in consts or any(isinstance(x, (ast.GeneratorExp, ast.ListComp)) for x in ast.walk(expr)):
+                res.violation("S-LOADARGS", load.short, f"{t}: {norm(c)[:100]}", "weighted-from-header", f"the weightedness of the loaded object is inferred from the edge records (`{norm(expr)[:80]}`) instead of read from the header: a weighted hypergraph without hyperedges reloads as unweighted", loc(cf, c))
+            else:
+                res.unknown("S-LOADARGS", load.short, f"{t}: {norm(c)[:100]}", "weighted-from-header", f"the source of `weighted` ({norm(expr)[:80]}) was not recognised", loc(cf, c))
         nodes = [n for st in stmts for n in ast.walk(st) if isinstance(n, ast.Call) and isinstance(n.func, ast.Attribute) and n.func.attr == "add_node"]
         if nodes:
             res.ok("S-LOADARGS", load.short, f"{t}: H.add_node(...)", "nodes", first)
-        elif helpers or any(isinstance(n, ast.Call) and isinstance(n.func, ast.Attribute) and n.func.attr == "add_nodes" for st in stmts for n in ast.walk(st)):
+        elif helpers or any(isinstance(n, ast.Call) and isinstance(n.func, ast.Attribute) and n.func.attr == "add_nodes" for st in stmts for n in ast.walk(st)) or any(isinstance(n, ast.Call) and isinstance(n.func, ast.Attribute) and n.func.attr in ("add_node", "add_nodes") for f_ in ld.fis for n in ast.walk(f_.node)):
             res.unknown("S-LOADARGS", load.short, f"{t}: H.add_node(...)", "nodes", f"no add_node call recognised in the json branch for {t}", first)
         else:
             res.violation("S-LOADARGS", load.short, f"{t}: H.add_node(...)", "nodes", f"the json branch for {t} never restores the nodes (isolated nodes are lost)", first)
@@ -590,9 +627,18 @@ def check_hgr(ctx, res: Result):
     if wexpr is not None:
         # the list that is grown by the reader (not the flag of the conditional `w if weighted else None`)
         grown = {n.func.value.id for n in ast.walk(load.node) if isinstance(n, ast.Call) and isinstance(n.func, ast.Attribute) and n.func.attr == "append" and isinstance(n.func.value, ast.Name)} | {n.target.id for n in ast.walk(load.node) if isinstance(n, ast.AugAssign) and isinstance(n.target, ast.Name)}
-        wl_name = next((x.id for x in ast.walk(wexpr) if isinstance(x, ast.Name) and x.id in grown), None)
+        cands = [wexpr]
+        if isinstance(wexpr, ast.Name) and wexpr.id not in grown:
+            # `weights` assigned on two branches (`= w_l` / `= None`)
+            cands += [d.value for d in ast.walk(load.node) if isinstance(d, ast.Assign) and any(isinstance(t, ast.Name) and t.id == wexpr.id for t in d.targets)]
+        wl_name = next((x.id for c in cands for x in ast.walk(c) if isinstance(x, ast.Name) and x.id in grown), None)
     el_name = el.id if isinstance(el, ast.Name) else None
-    res.check(wl_name is not None and el_name is not None, "S-HGR", load.short, norm(ctor), "ctor", "the hMETIS reader does not hand the edge list and the weight list to the constructor", loc(load, ctor))
+    if wl_name is not None and el_name is not None:
+        res.ok("S-HGR", load.short, norm(ctor), "ctor", loc(load, ctor))
+    elif wexpr is None or el is None:
+        res.violation("S-HGR", load.short, norm(ctor), "ctor", "the hMETIS reader does not hand the edge list and the weight list to the constructor", loc(load, ctor))
+    else:
+        res.unknown("S-HGR", load.short, norm(ctor), "ctor", "the lists handed to the constructor were not recognised as the ones the reader fills", loc(load, ctor))
     grows = {wl_name: [], el_name: []}
     for n in ast.walk(load.node):
         if isinstance(n, ast.AugAssign) and isinstance(n.target, ast.Name) and n.target.id in grows:
